@@ -102,11 +102,21 @@ pub struct DocOpts {
     pub no_esi: bool,
     /// one document in ten is wrapped in 7-40 nested elements (open-element stack growth steps)
     pub deep_wrappers: bool,
+    /// foreign islands may end in a tag that leaves foreign content (`<b>`, `<p>`, `<font color>`,
+    /// `<br>` ...): the rest of the island is HTML and its closing tags are stray (not well-nested)
+    pub breakouts: bool,
+    /// HTML-namespace comments are sometimes written as bogus comments (`<!x>`, `<?x>`, `</ x>`,
+    /// and outside islands `<![CDATA[x>`)
+    pub bogus_comments: bool,
+    /// also write `<![CDATA[x>` in the HTML content of integration points (where the open finding
+    /// C03-cdata-in-integration-point makes the layout's idea of the token unreliable): only for
+    /// oracles that do not use the layout (C06)
+    pub bogus_cdata_in_ip: bool,
 }
 
 impl Default for DocOpts {
     fn default() -> Self {
-        DocOpts { max_items: 14, max_depth: 5, islands: true, rawtext: true, misnest: true, comments: true, doctype: true, multibyte: true, odd_attrs: true, max_attrs: 4, small_vocab: true, lt_in_text: false, enc: encoding_rs::UTF_8, amp_safe: false, no_annotation_xml: false, no_esi: false, deep_wrappers: true }
+        DocOpts { max_items: 14, max_depth: 5, islands: true, rawtext: true, misnest: true, comments: true, doctype: true, multibyte: true, odd_attrs: true, max_attrs: 4, small_vocab: true, lt_in_text: false, enc: encoding_rs::UTF_8, amp_safe: false, no_annotation_xml: false, no_esi: false, deep_wrappers: true, breakouts: true, bogus_comments: true, bogus_cdata_in_ip: false }
     }
 }
 
@@ -144,6 +154,10 @@ pub struct Gen<'a, 't> {
     pub d: Doc,
     budget: usize,
     island_depth: usize,
+    /// island depth at which a breakout tag ended the foreign content
+    breakout_at: Option<usize>,
+    /// HTML element name that must not be generated inside the enclosing integration point
+    ip_excl: Option<&'static str>,
 }
 
 impl<'a, 't> Gen<'a, 't> {
@@ -202,6 +216,21 @@ impl<'a, 't> Gen<'a, 't> {
     }
 
     fn comment(&mut self, ns: Ns) {
+        if ns == Ns::Html && self.o.bogus_comments && self.t.chance(1, 5) {
+            // bogus comments: everything up to the first '>' (comment text = what follows `<!` / `<` )
+            let (open, text): (&str, String) = match self.t.below(if self.island_depth == 0 || self.o.bogus_cdata_in_ip { 4 } else { 3 }) {
+                0 => ("<!", self.t.pick(&["x", "doctyp", "[CDAT", "-a", "", "DOCTYP e", "a--"]).to_string()),
+                1 => ("<", format!("?{}", self.t.pick(&["xml a=b", "php", "", "x?"]))),
+                2 => ("</", self.t.pick(&[" x", "1", "-", " ", "=a", "!"]).to_string()),
+                _ => ("<!", format!("[CDATA[{}", self.t.pick(&["a", "x]]", "", "<b", "a]]", "a", ""]))),
+            };
+            let start = self.pos();
+            self.push(open);
+            self.push(&text);
+            self.push(">");
+            self.d.toks.push(Tok { kind: TK::Comment, start, end: self.pos(), name: text, ns, text_type: "", name_end: 0, island: self.island_depth > 0 });
+            return;
+        }
         let body = match self.t.below(8) {
             0 => "".to_string(),
             1 => " a ".to_string(),
@@ -482,11 +511,43 @@ impl<'a, 't> Gen<'a, 't> {
     fn foreign_items(&mut self, ns: Ns, depth: usize) {
         let n = self.t.range(0, 4);
         for _ in 0..n {
-            if self.budget == 0 {
+            if self.budget == 0 || self.breakout_at == Some(self.island_depth) {
                 return;
             }
             self.budget -= 1;
-            match self.t.weighted(&[4, 2, 1, 2, 3]) {
+            match self.t.weighted(&[8, 4, 2, 4, 6, if self.o.breakouts { 1 } else { 0 }]) {
+                5 => {
+                    match self.t.below(4) {
+                        3 => {
+                            // <font> without color/face/size stays a foreign element
+                            let sc = self.start_tag("font", ns, &[], true, false);
+                            if !sc {
+                                if depth < self.o.max_depth {
+                                    self.foreign_items(ns, depth + 1);
+                                }
+                                self.end_tag("font", ns);
+                            }
+                        }
+                        2 => {
+                            let name = *self.t.pick(&["br", "img", "hr", "embed"]);
+                            self.start_tag(name, Ns::Html, &[], true, false);
+                            self.breakout_at = Some(self.island_depth);
+                            return;
+                        }
+                        k => {
+                            let (name, forced): (&str, Vec<(&str, &str)>) = if k == 0 { ("font", vec![(*self.t.pick(&["color", "face", "size", "COLOR"]), "x")]) } else { (*self.t.pick(&["b", "div", "span", "p", "i", "em", "ul", "h1", "code"]), vec![]) };
+                            self.start_tag(name, Ns::Html, &forced, false, false);
+                            if depth < self.o.max_depth {
+                                // (HTML content again: what the enclosing integration point excludes stays excluded)
+                                let excl = self.ip_excl;
+                                self.html_items(depth + 1, true, false, excl);
+                            }
+                            self.end_tag(name, Ns::Html);
+                            self.breakout_at = Some(self.island_depth);
+                            return;
+                        }
+                    }
+                }
                 0 => {
                     let name = *self.t.pick(if ns == Ns::Svg { SVG_NAMES } else { MATH_NAMES });
                     let sc = self.start_tag(name, ns, &[], true, false);
@@ -537,9 +598,21 @@ impl<'a, 't> Gen<'a, 't> {
         // an HTML element named like an integration point of the enclosing foreign namespace
         // closes the integration point early (open finding); only `title` is in the vocabulary
         let excl = if finding_open("C03-same-name-in-integration-point") && ns == Ns::Svg { Some("title") } else { None };
+        let saved = self.ip_excl;
+        self.ip_excl = excl;
+        if self.o.bogus_cdata_in_ip && self.t.chance(1, 3) {
+            // `<![CDATA[` in the HTML content of the integration point: a bogus comment up to the first '>'
+            let text = format!("[CDATA[{}", self.t.pick(&["a", " 1 ", "", "x]]"]));
+            let start = self.pos();
+            self.push("<!");
+            self.push(&text);
+            self.push(">");
+            self.d.toks.push(Tok { kind: TK::Comment, start, end: self.pos(), name: text, ns: Ns::Html, text_type: "", name_end: 0, island: true });
+        }
         if depth < self.o.max_depth {
             self.html_items(depth + 1, true, false, excl);
         }
+        self.ip_excl = saved;
         self.end_tag(name, Ns::Html);
     }
 
@@ -554,12 +627,15 @@ impl<'a, 't> Gen<'a, 't> {
             self.foreign_items(ns, depth);
             self.end_tag(name, ns);
         }
+        if self.breakout_at == Some(self.island_depth) {
+            self.breakout_at = None;
+        }
         self.island_depth -= 1;
     }
 }
 
 pub fn doc(t: &mut Tape<'_>, o: &DocOpts) -> Doc {
-    let mut g = Gen { t, o, d: Doc { enc: o.enc, ..Doc::default() }, budget: o.max_items * 3, island_depth: 0 };
+    let mut g = Gen { t, o, d: Doc { enc: o.enc, ..Doc::default() }, budget: o.max_items * 3, island_depth: 0, breakout_at: None, ip_excl: None };
     let mut wrappers: Vec<&'static str> = vec![];
     if o.deep_wrappers && g.t.chance(1, 10) {
         let n = *g.t.pick(&[7usize, 8, 9, 15, 16, 17, 31, 33, 40]);
